@@ -4,7 +4,7 @@ import random
 from harness import common as C
 
 RULE_FILES = ["Rules/RealPrelude.v", "Rules/ScalarRules.v", "Rules/Complex.v", "Containers/VSpace.v",
-              "Containers/VSpaceProof.v", "Array/Broadcast.v", "Array/Run01.v", "Array/MatMul.v", "Array/Index.v", "Array/Select.v", "Array/RunSel.v", "Rules/Stats.v", "Rules/StatsProof.v", "Array/RunStats.v", "Array/Bilinear.v", "Array/RunBil.v"]
+              "Containers/VSpaceProof.v", "Array/Broadcast.v", "Array/Run01.v", "Array/MatMul.v", "Array/Index.v", "Array/Select.v", "Array/RunSel.v", "Rules/Stats.v", "Rules/StatsProof.v", "Array/RunStats.v", "Array/Bilinear.v", "Array/RunBil.v", "Rules/ComplexRing.v", "Array/RunBilC.v"]
 IMPORTS = ("From Coq Require Import List ZArith.\nImport ListNotations.\n"
            "From AG Require Import VSpace VSpaceProof Broadcast Run01 MatMul.\nLocal Open Scope Z_scope.\n")
 
@@ -150,6 +150,35 @@ def run_bilinear(res, tag, seed):
     return bad, tie, None
 
 
+def term_bilc(c):
+    gl = lambda l: C.clist(["(%s, %s)" % (C.cz(a), C.cz(b)) for a, b in l])  # noqa: E731
+    S = C.clist(["(mkc %s %s %s (%s, 0))" % (C.cnat(a), C.cnat(b), C.cnat(o), C.cz(k)) for a, b, o, k in c["S"]])
+    oj = lambda j: "None" if j is None else "(Some %s)" % gl(j)  # noqa: E731
+    return ("{| c_na := %s; c_nb := %s; c_no := %s; c_S := %s; c_A := %s; c_B := %s; c_g := %s; c_dA := %s; c_dB := %s; c_val := %s; "
+            "c_vjpA := %s; c_vjpB := %s; c_jvpA := %s; c_jvpB := %s; c_realA := %s; c_realB := %s; c_ok := %s |}"
+            % (C.cnat(c["na"]), C.cnat(c["nb"]), C.cnat(c["no"]), S, gl(c["A"]), gl(c["B"]), gl(c["g"]), gl(c["dA"]), gl(c["dB"]),
+               gl(c["val"]), gl(c["vjpA"]), gl(c["vjpB"]), oj(c["jvpA"]), oj(c["jvpB"]), C.cbool(c["realA"]), C.cbool(c["realB"]), C.cbool(c["ok"])))
+
+
+def run_bilinear_complex(res, tag, seed):
+    """bilinear primitives with complex operands (Gaussian integers): the ring-generic model instantiated with Z[i]"""
+    out, err = C.run_impl("impl_bilinear.py", {"seed": seed, "complex": True})
+    if out is None:
+        return [], [], err
+    cases = out["ccases"]
+    for k, v in out["dist"].items():
+        if k.startswith(("bilinear-complex", "complex")):
+            res.count(k, v)
+    imports = ("From Coq Require Import List ZArith.\nImport ListNotations.\n"
+               "From AG Require Import Bilinear RunBilC.\nLocal Open Scope Z_scope.\n")
+    codes = C.coq_eval(tag + "_bilc", imports, "", [term_bilc(c) for c in cases], "checkbilc")
+    res.add_cases(len(cases), [("bilc", c["prim"], c["tag"]) for c in cases], [{"primitive": c["prim"], "configuration": c["tag"]} for c in cases[:1]])
+    bad = [dict(c, site={"primitive": c["prim"]}, primitive=c["prim"], configuration=c["tag"], property="C09",
+                what="bilinear primitive with complex operands: shape or kind (real / complex) of a result wrong") for c, k in zip(cases, codes) if k == 2]
+    tie = [c for c, k in zip(cases, codes) if k == 1]
+    return bad, tie, None
+
+
 def term_stat(c):
     ql = lambda l: C.clist(["(%d # %d)" % (a, b) for a, b in l])  # noqa: E731
     jv = "None" if c["jvp"] is None else "(Some %s)" % ql(c["jvp"])
@@ -243,6 +272,11 @@ def run(res, tier, seed, broken, props, with_bcast):
             bad, tie = bad + b, tie + t
         if err:
             broken = broken + [{"obligation": "selection-primitive correspondence failed to run", "log": err[-3000:]}]
+    if "C09" in props or "C05" in props:
+        b, t, err = run_bilinear_complex(res, "blc_" + props[0].lower(), seed)
+        bad, tie = bad + b, tie + t
+        if err:
+            broken = broken + [{"obligation": "complex bilinear correspondence failed to run", "log": err[-3000:]}]
     ob, err = run_oracle(res, props, tier, seed)
     if err:
         broken = broken + [{"obligation": "implementation oracle failed to run", "log": err[-3000:]}]
